@@ -261,6 +261,8 @@ func (in *Interp) resetPath(prefix []int64) {
 	in.signs = nil
 	in.verifies = nil
 	in.nverify = 0
+	in.seals = nil
+	in.opens = nil
 	in.unwindOverride = 0
 	in.mapOrder = false
 	in.freeSwitch = false
@@ -568,6 +570,15 @@ func (in *Interp) violation(label, msg string, _ bool, siteOpt ...string) {
 		return
 	}
 	items, ok := in.model()
+	if !ok {
+		// the path condition could not be shown satisfiable: not a counterexample, inconclusive
+		in.noteUnknown("model for " + label + " at " + site)
+		ex.mu.Lock()
+		ex.res.VioCount[key]--
+		ex.vioSeen[key]--
+		ex.mu.Unlock()
+		return
+	}
 	v := Violation{Entry: ex.entry.Name(), Label: label, Msg: msg, Site: site, Known: known, Inputs: items,
 		Path: append([]int64{}, in.decisions64...), Notes: append([]string{}, in.pathNotes...), Modelled: ok, Sched: append([]string{}, in.sched...)}
 	ex.mu.Lock()
